@@ -23,7 +23,7 @@ def contracts(tier):
 
 
 def extra_obligations(tier):
-    return solvers_tables.table_obligations() + solvers_steps.step_obligations(tier)
+    return solvers_tables.table_obligations() + solvers_steps.step_obligations(tier) + solvers_steps.wiring_obligations(tier)
 
 
 MANIFEST = {
